@@ -200,3 +200,26 @@ func VerifConnAckFlagsString(b byte) string { return connAckFlags(b).String() }
 
 // VerifProtocolNameVar exposes the package-level protocol name slice.
 func VerifProtocolNameVar() []byte { return mqtt5 }
+
+// VerifWireFillInto runs fill (or, with prop set, fillProp under id) of
+// the named wire type holding v on the caller's buffer at offset i and
+// returns the reported width. The buffer is whatever the caller made
+// it: nil, too short, or pre-filled.
+func VerifWireFillInto(k VerifWire, v VerifValue, buf []byte, i int, prop bool, id Ident) int {
+	if prop {
+		return verifNew(k, v).fillProp(buf, i, id)
+	}
+	return verifNew(k, v).fill(buf, i)
+}
+
+// VerifPacketFill runs the positional encoder fill(buf, i) of a packet
+// on the caller's buffer and returns what it returns (the position
+// after the frame). The second result is false for a packet type
+// without such a method.
+func VerifPacketFill(p Packet, buf []byte, i int) (int, bool) {
+	f, ok := p.(interface{ fill([]byte, int) int })
+	if !ok {
+		return 0, false
+	}
+	return f.fill(buf, i), true
+}
